@@ -2,6 +2,7 @@ package main
 
 import (
 	"fmt"
+	"math/big"
 	"math/rand/v2"
 	"sort"
 	"strings"
@@ -80,6 +81,57 @@ func corpusFiles(mode string) []FileDef {
 				explicitEnum("E0", uByName("int8"), 0, Const{Name: "K", Val: "0"}, Const{Name: "Kilo", Val: "1"},
 					Const{Name: "Iota", Val: "2"}, Const{Name: "Sky", Val: "-1"}, Const{Name: "mass", Val: "3"}),
 			}})
+		}
+		// representation boundaries of the value set: enums whose highest (lowest) value sits at, just below and just
+		// above 2^6, 2^7, 2^8, 2^15, 2^16, 2^31, 2^32, 2^63, 2^64 - wherever a table, bit-set, or narrower integer
+		// representation of the set would change - each probed on every defined value and its neighbours
+		for _, group := range [][]string{
+			{"63", "64", "65", "127"}, {"128", "255", "256", "32767"}, {"32768", "65535", "65536", "2147483647"},
+			{"2147483648", "4294967295", "4294967296", "9223372036854775807"},
+			{"9223372036854775808", "18446744073709551615", "62", "1"},
+		} {
+			var enums []EnumDef
+			for gi, hi := range group {
+				v := bigStr(hi)
+				u := uByName("uint64")
+				for _, cand := range []string{"uint8", "uint16", "uint32"} {
+					if inRange(uByName(cand), v) && gi%2 == 1 {
+						u = uByName(cand) // every other enum in the narrowest unsigned type that holds the maximum
+						break
+					}
+				}
+				mid := new(big.Int).Rsh(v, 1)
+				enums = append(enums, explicitEnum(fmt.Sprintf("E%d", gi), u, gi,
+					Const{Name: fmt.Sprintf("Lo%d", gi), Val: "0"}, Const{Name: fmt.Sprintf("Mid%d", gi), Val: mid.String()},
+					Const{Name: fmt.Sprintf("Hi%d", gi), Val: v.String()}))
+			}
+			out = append(out, FileDef{Kind: "corpus", Opts: defaultOpts(), Enums: enums})
+		}
+		// … the same on the negative side (signed types), and a set that is a single value
+		{
+			var enums []EnumDef
+			for gi, lo := range []string{"-1", "-64", "-128", "-129", "-32768", "-2147483648", "-9223372036854775808"} {
+				v := bigStr(lo)
+				u := uByName("int64")
+				for _, cand := range []string{"int8", "int16", "int32"} {
+					if inRange(uByName(cand), v) && gi%2 == 0 {
+						u = uByName(cand)
+						break
+					}
+				}
+				enums = append(enums, explicitEnum(fmt.Sprintf("E%d", gi), u, gi,
+					Const{Name: fmt.Sprintf("Neg%d", gi), Val: v.String()}, Const{Name: fmt.Sprintf("Zero%d", gi), Val: "0"},
+					Const{Name: fmt.Sprintf("Top%d", gi), Val: "64"}))
+			}
+			out = append(out, FileDef{Kind: "corpus", Opts: defaultOpts(), Enums: enums[:4]}, FileDef{Kind: "corpus", Opts: defaultOpts(), Enums: enums[4:]})
+		}
+		// exactly 17 constants (15 and 16 are above): the other side of the binary-search switch
+		{
+			var c17 []Const
+			for i := 0; i < 17; i++ {
+				c17 = append(c17, Const{Name: fmt.Sprintf("X%d", i), Val: fmt.Sprint(i * 4)})
+			}
+			out = append(out, FileDef{Kind: "corpus", Opts: defaultOpts(), Enums: []EnumDef{explicitEnum("E0", uByName("uint8"), 0, c17...)}})
 		}
 		// constants named like identifiers the template binds: `e`, `input` always refused; `text`, `ok` refused
 		// with -caseInsensitive only (without it they are ordinary constants)
